@@ -22,7 +22,7 @@ RULE = (
     "character outside [A-Za-z0-9_./-] or a non-default optional field; distinct = the value."
 )
 ASSUMPTIONS = ["ninja quotes response-file content like shlex.quote (checked end-to-end on the CLI lane by C20's name matrix)", "control characters are excluded from file names (a ninja manifest cannot carry them)"]
-NCASES = {"quick": 320, "thorough": 4800}
+NCASES = {"quick": 960, "thorough": 9600}
 
 HOSTILE = [" ", ",", '"', "'", "é", "日本", "#", "$", "&", "(", ")", ";", "=", "@", "[", "]", "{", "}", "~", "+", "%", "!", "^", "`", "\\", " ", "😀", "__", "--", ".."]
 
@@ -293,6 +293,18 @@ def run_case(case):
                 merged = ReusableParts(view_box=Rect(0, 0, wh, wh), reuse_tolerance=tol)
                 for f in files:
                     merged.add(ReusableParts.loadjson(f))
+                # nothing a per-source part file carried may be lost on the way into the combined file (same view box:
+                # the shapes themselves must all be there)
+                carried = set()
+                for f in files:
+                    for ss in ReusableParts.loadjson(f).shape_sets.values():
+                        carried |= set(ss)
+                have = set()
+                for ss in merged.shape_sets.values():
+                    have |= set(ss)
+                bump("e.shapes_carried", len(carried))
+                if carried - have:
+                    res["violations"].append({"what": f"combined parts file lost {len(carried - have)} of the {len(carried)} shapes its inputs carried", "lost": [str(x)[:120] for x in list(carried - have)[:3]]})
                 merged.compute_donors()
                 js = merged.to_json()
                 back = ReusableParts.from_json(js)
